@@ -168,7 +168,8 @@ func vMarshal(v interface{}) ([]byte, error) {
 	case 3:
 		return []byte(`[]`), nil
 	}
-	return nil, errors.New("marshal failed")
+	// the error text is arbitrary too (it ends up inside the event)
+	return nil, errors.New("marshal failed" + zzverif.String(1))
 }
 
 // ---- argument constructors, named after the parameter type (see gosym/gen.go) ----
